@@ -54,9 +54,9 @@ def shape_pairs(extra, tier):
             out.append((a[::-1], a))
         return out
     if not extra:
-        return [("scalar", "scalar"), ("t", "scalar"), ("scalar", "t")]
+        return [("scalar", "scalar"), ("t", "scalar"), ("scalar", "t"), ("T", "scalar")]
     if len(extra) == 1:
-        return [("scalar", "scalar"), ("p", "scalar"), ("t", "p"), ("pt", "tp"), ("tp", "t")]
+        return [("scalar", "scalar"), ("p", "scalar"), ("t", "p"), ("pt", "tp"), ("tp", "t"), ("pT", "p")]
     return [("scalar", "p"), ("q", "scalar"), ("qp", "pq"), ("tqp", "q"), ("pt", "tq"), ("tpq", "qtp"), ("pqt", "scalar")]
 
 
@@ -154,7 +154,7 @@ def run_unit(u):
         for shapes2 in shape_pairs(extra, tier):
             for quad in quads(tier):
                 k += 1
-                vias = ("ctor", "set_prms", "reparam") if tier == "thorough" and quad[1] in (1, 4) else (("ctor", "set_prms", "reparam")[k % 3],)
+                vias = ("ctor", "set_prms", "reparam", "positional") if tier == "thorough" and quad[1] in (1, 4) else (("ctor", "set_prms", "reparam", "positional")[k % 4],)
                 if tier == "thorough" and len(extra) == 2 and quad[1] not in (1, 2, 5, 10):
                     continue
                 for via in vias:
